@@ -497,6 +497,10 @@ impl<TStdlib: Stdlib, TStdIn: Input, TStdOut: Printer, TLpt1: Printer>
             Instruction::PopRet => {
                 let address = self.return_address_stack.pop().unwrap();
                 ctx.opt_next_index = Some(address);
+                // the GOSUBs of the procedure that ends here are not pending any more
+                let call_depth = self.return_address_stack.len();
+                self.go_sub_address_stack
+                    .retain(|(_, depth)| *depth <= call_depth);
             }
             Instruction::GoSub(address_or_label) => {
                 self.go_sub_address_stack
